@@ -36,6 +36,7 @@ def _view_loop(check: Check, fi: FuncInfo):
         stop_name = st.targets[0].id
   slice_ok = False
   proc_ok = False
+  proc_name = None
   for st in lp.body:
     for c in ast.walk(st):
       if isinstance(c, ast.Call) and wmean.repo_fn(ff, c) == f'{MOD}:slice_examples' and len(c.args) == 2:
@@ -44,7 +45,11 @@ def _view_loop(check: Check, fi: FuncInfo):
             txt(x) for x in s.args] == [start, stop_name]
       if isinstance(c, ast.Call) and txt(c.func) == 'self._client_dataset.preprocessor' and len(c.args) == 1:
         proc_ok = True
-  return dict(loop=lp, range_ok=rng_ok, stop_ok=stop_ok, slice_ok=slice_ok, proc_ok=proc_ok, start=start, stop=stop_name, ff=ff)
+        pst = ff.module.enclosing_stmt(c)
+        if isinstance(pst, ast.Assign) and isinstance(pst.targets[0], ast.Name):
+          proc_name = pst.targets[0].id
+  return dict(loop=lp, range_ok=rng_ok, stop_ok=stop_ok, slice_ok=slice_ok, proc_ok=proc_ok, start=start, stop=stop_name, ff=ff,
+              processed=proc_name)
 
 
 def _full_pred(test: ast.AST, stop: str) -> Optional[bool]:
@@ -98,6 +103,8 @@ def run(check: Check):
     ff = info['ff']
     ys = [(n, y) for n, y in ff.yields()]
     full_arm = pad_arm = False
+    FM = next((d.name for ds in ff.rd.defs_at.values() for d in ds if isinstance(d.value, ast.Call) and ff.ext(d.value.func) == 'numpy.ones'), None)
+    PROC = info['processed']
     for n, y in ys:
       g = guards_of(ff, ff.module.enclosing_stmt(y))
       preds = [(_full_pred(t, info['stop']), pol) for t, pol in g]
@@ -108,15 +115,16 @@ def run(check: Check):
       v = y.value
       if is_full:
         full_arm = isinstance(v, ast.Dict) and any(k is None for k in v.keys) and any(
-            isinstance(k, ast.Name) and k.id == 'EXAMPLE_MASK_KEY' for k in v.keys if k is not None) and 'full_mask' in txt(v)
+            isinstance(k, ast.Name) and k.id == 'EXAMPLE_MASK_KEY' for k in v.keys if k is not None) and any(
+                isinstance(x, ast.Name) and x.id == FM for x in v.values) and any(isinstance(x, ast.Name) and x.id == PROC for x in v.values)
       else:
         pad_arm = isinstance(v, ast.Call) and wmean.repo_fn(ff, v) == f'{MOD}:pad_examples' and len(v.args) == 2 and txt(
-            v.args[1]) == 'self._final_batch_size' and txt(v.args[0]) == 'processed'
+            v.args[1]) == 'self._final_batch_size' and txt(v.args[0]) == PROC
     check.ob('R-SIB.view', pv, 'stop <= size: all-True mask / else pad_examples(processed, final_batch_size)', full_arm and pad_arm,
              f'full batches get an all-True mask (ok={full_arm}); only the incomplete final batch is padded, to the precomputed '
              f'final size (ok={pad_arm})')
     # full mask is all ones of batch_size
-    fm = any(d.name == 'full_mask' and isinstance(d.value, ast.Call) and ff.ext(d.value.func) == 'numpy.ones' and 'self._batch_size' in txt(
+    fm = any(d.name == FM and isinstance(d.value, ast.Call) and ff.ext(d.value.func) == 'numpy.ones' and 'self._batch_size' in txt(
         d.value.args[0]) and 'bool' in txt(d.value) for ds in ff.rd.defs_at.values() for d in ds)
     check.ob('R-SIB.view', pv, 'full_mask = np.ones([batch_size], bool)', fm, 'the mask of a full batch marks every row as real')
   if 'BatchView' in infos:
@@ -130,7 +138,7 @@ def run(check: Check):
           a, b = t.values
           ok = txt(a) == 'not self._drop_remainder' and _full_pred(b, info['stop']) is True
       yv = y.value
-      ok = ok and isinstance(yv, ast.Name) and yv.id == 'processed'
+      ok = ok and isinstance(yv, ast.Name) and yv.id == info['processed']
     check.ob('R-SIB.view', bv, 'yield if not drop_remainder or stop <= size', ok,
              'every batch is yielded except an incomplete final batch when drop_remainder is set')
   # final batch size computed from the same (size, batch, buckets)
@@ -157,8 +165,14 @@ def run(check: Check):
       check.ob('R-PURE', fi, fi.qualname, True, 'no write through self / arguments')
   call = repo.func(MOD, 'BatchPreprocessor.__call__')
   cff = FuncFlow.of(repo, call)
-  copy = any(d.name == 'out' and isinstance(d.value, ast.Call) and cff.ext(d.value.func) == 'builtins.dict' and cff.param_of(
-      d.value.args[0]) == call.positional_params[1] for ds in cff.rd.defs_at.values() for d in ds)
+  copy = False
+  for n in cff.cfg.nodes:
+    if n.kind == 'for' and txt(n.ast.iter) == 'self._fns':
+      for st in n.ast.body:
+        if isinstance(st, ast.Assign) and isinstance(st.value, ast.Call) and len(st.value.args) == 1 and isinstance(st.value.args[0], ast.Name):
+          first = [d for d in cff.rd.reaching(next(x for x in cff.cfg.nodes if x.kind == 'for-iter' and x.ast is n.ast), st.value.args[0].id)]
+          copy = bool(first) and all(isinstance(d.value, ast.Call) and cff.ext(d.value.func) == 'builtins.dict' and cff.param_of(
+              d.value.args[0]) == call.positional_params[1] for d in first)
   check.ob('R-PURE.copy', call, 'out = dict(examples)', copy, 'preprocessing functions receive a copy of the mapping, not the caller\'s dict')
 
 
@@ -168,16 +182,18 @@ def _pick(check: Check):
   ff = FuncFlow.of(repo, fi)
   check.analysed(fi)
   ds_, bs, nb = fi.positional_params[:3]
-  rem_ok = any(d.name == 'final_batch_size' and isinstance(d.value, ast.BinOp) and isinstance(d.value.op, ast.Mod) and ff.param_of(
-      d.value.left) == ds_ and ff.param_of(d.value.right) == bs for ds in ff.rd.defs_at.values() for d in ds)
+  rem_defs = [d for ds in ff.rd.defs_at.values() for d in ds if isinstance(d.value, ast.BinOp) and isinstance(d.value.op, ast.Mod) and ff.param_of(
+      d.value.left) == ds_ and ff.param_of(d.value.right) == bs]
+  rem_ok = len(rem_defs) == 1
+  rem_name = rem_defs[0].name if rem_ok else None
   zero_ok = False
   for n in ff.cfg.nodes:
-    if n.kind == 'if' and txt(n.ast.test) == 'final_batch_size == 0':
+    if n.kind == 'if' and isinstance(n.ast.test, ast.Compare) and isinstance(n.ast.test.ops[0], ast.Eq) and txt(n.ast.test.left) == rem_name and txt(
+        n.ast.test.comparators[0]) == '0':
       zero_ok = any(isinstance(s, ast.Return) and ff.param_of(s.value) == bs for s in n.ast.body)
   check.ob('R-BUCKET', fi, 'remainder == 0 -> batch_size', rem_ok and zero_ok, 'a dataset that divides evenly needs no padding')
   # halving search: if the code has the documented shape, its operators must be the right ones; another shape is
   # left undecided (integer arithmetic is outside this family) rather than reported
-  rem_name = 'final_batch_size'
   for n in ff.cfg.nodes:
     if n.kind != 'while':
       continue
@@ -251,6 +267,8 @@ def _pad_examples(check: Check):
     if n.kind == 'for-bind':
       lp = n.ast
       v = lp.target.elts[1].id if isinstance(lp.target, ast.Tuple) else None
+      PADV = next((st.targets[0].id for st in lp.body if isinstance(st, ast.Assign) and isinstance(st.value, ast.Call) and ff.ext(
+          st.value.func) == 'numpy.zeros' and isinstance(st.targets[0], ast.Name)), None)
       for st in lp.body:
         if isinstance(st, ast.Assign) and isinstance(st.value, ast.Call) and ff.ext(st.value.func) == 'numpy.zeros':
           a = list(st.value.args) + [k.value for k in st.value.keywords]
@@ -263,7 +281,11 @@ def _pad_examples(check: Check):
           zeros_ok = has_tail and has_size and has_dtype
         if isinstance(st, ast.Assign) and isinstance(st.targets[0], ast.Subscript) and isinstance(st.targets[0].slice, ast.Slice):
           sl = st.targets[0].slice
-          copy_ok = sl.lower is None and txt(sl.upper) == cur and txt(st.value) == v and txt(st.targets[0].value) == 'padded'
+          copy_ok = sl.lower is None and txt(sl.upper) == cur and txt(st.value) == v and txt(st.targets[0].value) == PADV
+      # the padded array is what is stored under the feature's key
+      stored = any(isinstance(st, ast.Assign) and isinstance(st.targets[0], ast.Subscript) and not isinstance(st.targets[0].slice, ast.Slice) and txt(
+          st.value) == PADV for st in lp.body)
+      copy_ok = copy_ok and stored
   check.ob('R-PAIR.pad', fi, 'padded = zeros((size,) + v.shape[1:], v.dtype); padded[:current_size] = v', copy_ok and zeros_ok,
            f'padding rows are zeros of the feature\'s own dtype and trailing shape (ok={zeros_ok}); the real rows are copied to the '
            f'same prefix the mask marks (ok={copy_ok})')
